@@ -258,6 +258,7 @@ pub fn c05(ctx: &mut Ctx) -> (u64, String) {
     // (5) and after clear() from every partial prefix every frame is judged by the same rule
     report_clear_sweep(ctx);
     ps2_default_check(ctx);
+    report_frame_chains(ctx, "ps2/c05");
     ctx.sample_run("ps2", &["word:0402", "word:0403", "word:0002", "word:0602", "word:07FE"]);
     ctx.sample_run("kb:echo-0:set2:Ignore", &["word:0402", "word:0403", "word:05C0", "word:0438"]);
     ctx.sample(json!({"word": "0x402", "bits": "start=0 data=0x01 parity=0 stop=1", "reference": "Ok(0x01)"}));
@@ -539,6 +540,120 @@ pub fn pair_seconds(all: bool) -> Vec<u16> {
     v
 }
 
+/// Chains of frames through ONE decoder, bit by bit: first frame = each of the 2048 words, then each given middle
+/// sequence of frames, then a last frame = each of the 2048 words; every bit of every frame is judged (incomplete until the
+/// 11th bit, then R-FRAME of that frame). A frame decoder whose answer depends on the frame two or three frames back
+/// (a second register slot, a diagnostic copy, a mask that misses one bit) passes every single-frame and frame-pair check.
+/// Returns (bit positions checked, [(frames of the chain, failing bit index in the chain, expected, observed)]).
+pub fn frame_chains(mids: &[Vec<u16>]) -> (u64, Vec<(Vec<u16>, usize, String, String)>) {
+    fn feed(d: &mut Ps2Decoder, w: u16, guard: bool, n: &mut u64) -> Option<(usize, String, String)> {
+        for i in 0..11 {
+            let b = (w >> i) & 1 != 0;
+            let r = if guard { catch_unwind(AssertUnwindSafe(|| d.add_bit(b))) } else { Ok(d.add_bit(b)) };
+            *n += 1;
+            let want = if i < 10 { Ok(None) } else { r_frame(w).map(Some) };
+            if !matches!(&r, Ok(x) if *x == want) {
+                let obs = match &r {
+                    Ok(x) => fmt_optbyte(x),
+                    Err(_) => "PANIC".to_string(),
+                };
+                return Some((i, fmt_optbyte(&want), obs));
+            }
+        }
+        None
+    }
+    let results = par_chunks(2048, |w1| {
+        let w1 = w1 as u16;
+        let run = |guard: bool| {
+            let mut n = 0u64;
+            let mut bads: Vec<(Vec<u16>, usize, String, String)> = vec![];
+            let mut d1 = Ps2Decoder::new();
+            if let Some((i, want, obs)) = feed(&mut d1, w1, guard, &mut n) {
+                bads.push((vec![w1], i, want, obs));
+                return (n, bads);
+            }
+            'mid: for mid in mids {
+                let mut d2 = d1.clone();
+                let mut chain = vec![w1];
+                for (mi, w) in mid.iter().enumerate() {
+                    chain.push(*w);
+                    if let Some((i, want, obs)) = feed(&mut d2, *w, guard, &mut n) {
+                        if bads.len() < 4 {
+                            bads.push((chain.clone(), (mi + 1) * 11 + i, want, obs));
+                        }
+                        continue 'mid;
+                    }
+                }
+                for last in 0..2048u16 {
+                    let mut d3 = d2.clone();
+                    if let Some((i, want, obs)) = feed(&mut d3, last, guard, &mut n) {
+                        if bads.len() < 4 {
+                            let mut c = chain.clone();
+                            c.push(last);
+                            bads.push((c, (mid.len() + 1) * 11 + i, want, obs));
+                        }
+                        if bads.len() >= 4 {
+                            continue 'mid;
+                        }
+                    }
+                }
+            }
+            (n, bads)
+        };
+        match catch_unwind(AssertUnwindSafe(|| run(false))) {
+            Ok(r) => r,
+            Err(_) => run(true),
+        }
+    });
+    let mut total = 0;
+    let mut out = vec![];
+    for (n, b) in results {
+        total += n;
+        out.extend(b);
+    }
+    (total, out)
+}
+
+pub fn chain_ops(chain: &[u16], upto: usize) -> Vec<Op> {
+    let mut ops = vec![];
+    for j in 0..=upto {
+        ops.push(Op::Bit((chain[j / 11] >> (j % 11)) & 1 != 0));
+    }
+    ops
+}
+
+/// middle sequences for `frame_chains`: every single representative frame (triples) and every ordered pair of six
+/// (quick) / of all 24 (thorough) representative frames (quadruples)
+pub fn chain_mids(thorough: bool) -> Vec<Vec<u16>> {
+    let reps = pair_seconds(false);
+    let six = [encode(0x1C), encode(0xF0), 0x7FF, 0x000, encode(0x1C) ^ (1 << 9), encode(0xE0) & !(1 << 10)];
+    let mut v: Vec<Vec<u16>> = reps.iter().map(|w| vec![*w]).collect();
+    let pool: Vec<u16> = if thorough { reps.clone() } else { six.to_vec() };
+    for a in &pool {
+        for b in &pool {
+            v.push(vec![*a, *b]);
+        }
+    }
+    v
+}
+
+pub fn report_frame_chains(ctx: &mut Ctx, key_prefix: &str) {
+    let mids = chain_mids(ctx.thorough());
+    let (n, bads) = frame_chains(&mids);
+    let nb = bads.len();
+    for (chain, upto, want, obs) in bads {
+        let names: Vec<String> = chain.iter().map(|w| format!("0x{:03X}", w)).collect();
+        ctx.violation(
+            &format!("{}/chain/{}/bit{}", key_prefix, names.join("-"), upto % 11),
+            &format!("shifting the frames {} through one decoder bit by bit: bit {} of frame {} (0x{:03X}) must give {} but gives {}", names.join(", "), upto % 11 + 1, upto / 11 + 1, chain[upto / 11], want, obs),
+            Replay::one("ps2", chain_ops(&chain, upto), &want, Some(obs)),
+        );
+    }
+    ctx.evaluations += n;
+    ctx.traces_validated += n;
+    ctx.part("chains:all frames x representative middle frames x all frames through one decoder", json!({"engine": "B frame chains", "first_frames": 2048, "middle_sequences": mids.len(), "last_frames": 2048, "bit_positions_checked": n, "violations_recorded": nb}));
+}
+
 /// A decoder obtained through `Default::default()` must behave exactly like `new()`: identical by identity, or else
 /// every frame (and a valid frame after it) is answered identically bit by bit.
 pub fn ps2_default_check(ctx: &mut Ctx) {
@@ -806,6 +921,7 @@ pub fn c06(ctx: &mut Ctx) -> (u64, String) {
     // (C) hook-free: clear() from every partial prefix, then every one of the 2048 frames
     report_clear_sweep(ctx);
     ps2_default_check(ctx);
+    report_frame_chains(ctx, "ps2/c06");
 
     // (D) pumped frames: each of the 2048 frames 300 times on one decoder, without and with partial-frame+clear between
     for with_clear in [false, true] {
